@@ -279,6 +279,11 @@ fn named_inputs(thorough: bool) -> Vec<(&'static str, String)> {
         ("only-crlf-lines", "\r\n\r\n\r\n".into()),
         ("unicode", "é€𝄞\nñandú\r\n\u{10FFFF}\n日本語\nlast€".into()),
         ("whitespace-lines", " \n\t\n  x  \n \r\n".into()),
+        // a byte-order mark is part of the first line: it is lent as it is, on every pass
+        ("leading-bom", "\u{feff}alpha\nbeta\r\ngamma".into()),
+        ("bom-only-and-inner-bom", "\u{feff}\nx\u{feff}y\n\u{feff}".into()),
+        // multi-byte characters around the 8192-byte buffer boundary
+        ("multibyte-at-buffer-boundary", format!("{}é{}\n{}€\n{}𝄞tail", "a".repeat(8191), "b".repeat(10), "c".repeat(8190 - 11), "d".repeat(8189 + 8192 - 3))),
     ];
     // 300 short lines (several BufReader refills with tiny buffers)
     let mut s = String::new();
